@@ -40,7 +40,7 @@ PROFILE = dict(
     target_prob=10,
 )
 
-WATCHDOG_S = 60
+WATCHDOG_S = 40
 
 
 def budget(tier):
@@ -61,6 +61,42 @@ def _alarm(signum, frame):
     raise _Timeout()
 
 
+FUEL_CALLS = 3_000_000  # cobyqa function calls allowed between two evaluations (a whole capped run makes ~1e5)
+
+
+def fuel_replay(spec, out):
+    """A case stopped by the wall-clock watchdog is replayed under a deterministic fuel counter
+    (Python calls inside cobyqa/, reset at every evaluation of the problem). Exhausting the fuel is
+    reported as a violation ("does not return in finite time"); otherwise the case stays
+    inconclusive."""
+    from ..fuel import Fuel, FuelExhausted
+
+    fuel = Fuel(FUEL_CALLS)
+    b = S.build(spec, hook=lambda kind: fuel.reset())
+    kw = e2e.make_kwargs(b)
+    import cobyqa
+
+    def go():
+        with np.errstate(all="ignore"):
+            return cobyqa.minimize(b.fun, b.x0, **kw)
+
+    old = signal.signal(signal.SIGALRM, _alarm)
+    signal.alarm(20 * WATCHDOG_S)
+    try:
+        fuel.run(go)
+        out.label("timeout-but-returned-under-fuel")
+    except FuelExhausted:
+        out.fail("C08.f", "minimize does not return: more than %d function calls inside cobyqa without a new "
+                 "evaluation (after %d evaluations)" % (FUEL_CALLS, len(b.log.calls("obj")) or len(b.log.events)))
+    except _Timeout:
+        out.label("timeout-inconclusive")
+    except Exception as exc:  # judged by the normal path of other cases
+        out.label("fuel-replay-exc:%s" % type(exc).__name__)
+    finally:
+        signal.alarm(0)
+        signal.signal(signal.SIGALRM, old)
+
+
 def is_debug_assert(b, t):
     """AssertionError raised by an in-code debug assertion while debug=True was requested."""
     return bool(b.options.get("debug")) and t.exc is not None and t.exc[0] == "AssertionError"
@@ -73,7 +109,10 @@ def run_case(spec):
     try:
         b, t = e2e.run(spec)
     except _Timeout:
+        signal.alarm(0)
+        signal.signal(signal.SIGALRM, old)
         out.label("timeout")
+        fuel_replay(spec, out)
         return out
     finally:
         signal.alarm(0)
